@@ -347,7 +347,7 @@ class LinNF:
     const: Poly
     opaque: List[str] = field(default_factory=list)
 
-    def key(self) -> str:
+    def _key(self) -> str:
         parts = [self.rel]
         for k in sorted(self.terms):
             parts.append(f"{k} * ({self.terms[k]!r})")
@@ -355,6 +355,13 @@ class LinNF:
         if self.opaque:
             parts.append("OPAQUE " + " | ".join(sorted(self.opaque)))
         return " ; ".join(parts)
+
+    def key(self) -> str:
+        """canonical text; an equation and its negation have the same key (the sign is chosen canonically)"""
+        if self.rel == "==":
+            a, b = self._key(), self.negated()._key()
+            return min(a, b)
+        return self._key()
 
     def negated(self) -> "LinNF":
         return LinNF(self.rel, {k: -v for k, v in self.terms.items()}, -self.const, list(self.opaque))
